@@ -70,7 +70,9 @@ TLC_JAR = "/opt/veriftools/tla/tla2tools.jar:/opt/veriftools/tla/CommunityModule
 def tlc_cmd(spec, cfg, metadir, workers, extra=(), heap=None):
     # a small fixed heap: with the default 25%-of-RAM heap the JVM spends most of its time in
     # page faults (measured: 25 s -> 10 s for the same run with -Xmx3g)
-    java = ["java", "-XX:+UseParallelGC", "-XX:ParallelGCThreads=4", "-Xss512m", "-Xmx" + (heap or os.environ.get("VERIF_TLC_HEAP", "4g"))]
+    # (java.io.tmpdir inside the scratch area: SANY / TLC unpack their standard modules into a fresh temp directory per run)
+    java = ["java", "-XX:+UseParallelGC", "-XX:ParallelGCThreads=4", "-Xss512m", "-Xmx" + (heap or os.environ.get("VERIF_TLC_HEAP", "4g")),
+            "-Djava.io.tmpdir=" + os.path.dirname(os.path.abspath(metadir))]
     return java + ["-cp", TLC_JAR, "tlc2.TLC", "-workers", str(workers), "-metadir", metadir,
                    "-config", cfg] + list(extra) + [spec]
 
